@@ -300,6 +300,25 @@ def selftest():
     # ordering oracle: swap two records with different statistics
     mk, pt = ord_records(recs, {})
     expect("ord-swapped", [mk[1], mk[0]] + mk[2:])
+    # permutation component of the selection-adjusted p (perm rows of samples of <= 5 points)
+    i_perm = next(k for k, r in enumerate(recs) if r.get("op") == "seq" and r.get("perm") and r["perm"][0][3] == 0)
+    a = cp(); a[i_perm]["perm"][0][1] -= 1; expect("permutation-component-one-ordering-less", a)
+    # records beyond the exhaustive bound: Theil-Sen on 8..13 points, Mann-Kendall on long block-structured series
+    t2 = os.path.join(wd, "t2.ndjson")
+    vlib.run_bin("h_stats", ["random", t2, 3, 12], env={"VERIF_SEED": 11})
+    xr = read_ndjson(t2)
+    ts = [r for r in xr if r.get("op") == "ts"]
+    mkb = sorted([r for r in xr if r.get("op") == "mkb"], key=lambda r: (-r["p"][0], -r["p"][1], mkb_hint(r["blocks"])))
+    p0 = os.path.join(wd, "beyond.ndjson")
+    write_ndjson(p0, ts + mkb)
+    ok, rej, _ = validate_trace(D, "Trace_RankStats", p0, cfg=cfg)
+    assert ok, rej
+    a = json.loads(json.dumps(ts)); a[0]["aff"][0][3] += 1; expect("theil-sen-slope-8-to-13-points", a)
+    a = json.loads(json.dumps(mkb)); a[1]["s"] += 2; expect("mann-kendall-s-long-series", a)
+    mid = [k for k, r in enumerate(mkb[:-1]) if [0, 1000] < r["p"] < [1000000000, 0] and mkb_hint(r["blocks"]) != mkb_hint(mkb[k + 1]["blocks"])
+           and [0, 1000] < mkb[k + 1]["p"]]
+    a = json.loads(json.dumps(mkb)); k = mid[0]; a[k]["blocks"], a[k + 1]["blocks"] = a[k + 1]["blocks"], a[k]["blocks"]
+    a[k]["s"], a[k + 1]["s"] = a[k + 1]["s"], a[k]["s"]; expect("mann-kendall-p-not-ordered-by-exact-statistic", a)
     b = [{"op": "bh", "p": [[1, 16], [1, 2]], "q": [1, 4], "m": 2, "panic": 0, "keep": [1, 1]}]
     expect("bh-keeps-too-much", b)
     b = [{"op": "bh", "p": [[1, 8]], "q": [1, 4], "m": 4, "panic": 0, "keep": [1]}]      # 1/8 > (1/4) * (1/4)
